@@ -131,7 +131,8 @@ RULE_BOOK = ("scripts = exhaustive depth-d trees over a small alphabet (every pa
 
 def run_book_property(ctx, theorem_file):
     pid = ctx.pid
-    common.proof_obligations(ctx, theorem_file)
+    if os.environ.get("VERIF_NO_PROOF") != "1":     # (tools/try_mutation.sh only: correspondence part alone)
+        common.proof_obligations(ctx, theorem_file)
     jobs = book_jobs(pid, ctx.tier, ctx.seed)
     reports, stats = common.run_jobs(ctx, jobs)
     common.coverage_from_stats(ctx, stats, RULE_BOOK)
@@ -202,6 +203,31 @@ def replay(ctx, path):
     return 1 if bad else 0
 
 
+def run_c07(ctx):
+    rc = run_book_property(ctx, "Properties/C07.v")
+    import subprocess
+    q = ctx.tier == "quick"
+    d = os.path.join(ctx.work, "snap")
+    cmd = [common.DRIVE, "snapshots", "--seed", str(ctx.seed), "--count", "60" if q else "1500", "--len", "60" if q else "120",
+           "--trunc", "12" if q else "400", "--dir", d]
+    out = subprocess.run(cmd, env=common.ENV, stdout=subprocess.PIPE, text=True).stdout
+    import shutil
+    shutil.rmtree(d, ignore_errors=True)
+    fails = [l[9:] for l in out.splitlines() if l.startswith("SNAPFAIL ")]
+    stats = [l[10:] for l in out.splitlines() if l.startswith("SNAPSTATS ")]
+    if not stats:
+        raise CheckFailure("snapshot job did not finish", out[-2000:])
+    ctx.coverage["snapshot_text_and_file_level"] = json.loads(stats[0])
+    ctx.coverage["snapshot_rule"] = ("at random points of random histories: compact and pretty text reloaded in memory (observation and re-serialisation "
+                                     "must be equal), saved through save_json to a path that is reused (documents of varying length overwrite each other) "
+                                     "and loaded back; the reloaded object is then driven in lock-step with the original; for the first files every byte "
+                                     "offset is cut and load_json must return Err (no Ok, no panic); Market<1,2,4> likewise")
+    for f in fails[:2]:
+        rp = ctx.write_replay({"kind": "failing-input", "what": f, "how_to_replay": " ".join(cmd)})
+        ctx.violations.append((rp, False))
+    return 1 if ctx.violations else rc
+
+
 PROPS = {
     "C01": lambda ctx: run_book_property(ctx, "Properties/C01.v"),
     "C02": lambda ctx: run_book_property(ctx, "Properties/C02.v"),
@@ -209,7 +235,7 @@ PROPS = {
     "C04": lambda ctx: run_book_property(ctx, "Properties/C04.v"),
     "C05": lambda ctx: run_book_property(ctx, "Properties/C05.v"),
     "C06": lambda ctx: run_book_property(ctx, "Properties/C06.v"),
-    "C07": lambda ctx: run_book_property(ctx, "Properties/C07.v"),
+    "C07": run_c07,
     "C12": lambda ctx: run_book_property(ctx, "Properties/C12.v"),
     "C13": lambda ctx: run_book_property(ctx, "Properties/C13.v"),
 }
